@@ -17,6 +17,7 @@ class WindowDevice(ADevice):
 
   def __init__(self, id, length, bounds, w, cbounds=None, c=1):
     super().__init__(id, length, bounds, cbounds, f=WindowPenalty(w, c), w=w, c=c)
+    self._keys.remove('f')
 
   @property
   def c(self):
